@@ -407,6 +407,17 @@ def create_for_folder_subcommand(
         raise errors.NoMHLHistoryException(", ".join(missing_asc_mhl_folder))
 
 
+def _normalized_path(path):
+    """os.path.normpath, unless removing 'x/..' textually would name another folder (x is a symbolic link)"""
+    normalized_path = os.path.normpath(path)
+    try:
+        if os.path.samefile(os.path.dirname(normalized_path), os.path.dirname(path)):
+            return normalized_path
+    except OSError:
+        pass
+    return path
+
+
 def _path_below_root(path, root_path):
     """A path that lies in the root folder but reaches it through another spelling than root_path (a symbolic link in
     one of the two, the physical working directory for a relative path) is re-expressed below root_path, so that
@@ -416,7 +427,7 @@ def _path_below_root(path, root_path):
         real_path = os.path.join(os.path.realpath(os.path.dirname(path)), os.path.basename(path))
         real_relative_path = os.path.relpath(real_path, os.path.realpath(root_path))
         if real_relative_path != os.pardir and not real_relative_path.startswith(os.pardir + os.sep):
-            return os.path.normpath(os.path.join(root_path, real_relative_path))
+            return _normalized_path(os.path.join(root_path, real_relative_path))
     return path
 
 
@@ -476,7 +487,7 @@ def create_for_single_files_subcommand(
     for path in single_file:
         if not os.path.isabs(path):
             path = os.path.join(os.getcwd(), path)
-        path = _path_below_root(os.path.normpath(path), root_path)
+        path = _path_below_root(_normalized_path(path), root_path)
         if os.path.isdir(path):
             # patterns are relative to the root folder of the history, not to the folder given with -sf
             for folder_path, children in post_order_lexicographic(
